@@ -229,7 +229,8 @@ Print Assumptions plan_fills_needs_selectable_refuted.
 
 (* non-vacuity: ERC-20 Transfer(address indexed, address indexed, uint256), all inputs selected,
    block fields block_time, tx_status, log_addr + what AddRequiredFields appends.  Log rows; the
-   plan is headers + receipts; the 8 case labels the request names are read and each is supplied
+   plan is headers + receipts (no full blocks, no traces; use_logs is left out of the statement:
+   it depends on the order of the if-blocks and is overridden by receipts in Client.Get); the 8 case labels the request names are read and each is supplied
    (block_time by the headers, tx_status / log_addr / log_idx / tx_idx by the receipts); one row
    is stored for a block with one Transfer log, so every premise of
    stored_block_cells_are_fetched is satisfiable *)
@@ -238,7 +239,8 @@ Example ex_erc20_transfer :
   /\ Rows.indexing Rows.fixed erc20_decl = Rows.IxLog
   /\ required_presentb MLog erc20_request = true
   /\ rows_read_names erc20_decl = map Filter.s2b erc20_request
-  /\ new glf_tables glf_steps erc20_request = mkFlags true false true false false
+  /\ (let fl := new glf_tables glf_steps erc20_request in
+      use_headers fl = true /\ use_receipts fl = true /\ use_blocks fl = false /\ use_traces fl = false)
   /\ disp_gen (new glf_tables glf_steps erc20_request) = [GHeaders; GReceipts]
   /\ map f_name (plan_fields get_fields erc20_request)
      = ["src_name"; "ig_name"; "block_num"; "block_time"; "tx_idx"; "tx_status"; "log_idx"; "log_addr"]
